@@ -518,6 +518,7 @@ namespace photon
 #ifdef PHOTON_VERIF
         // invariant walker, armed by T_SLEEPQ_WALK (bit 0: structural)
         uint32_t verif_mutations = 0;
+        void* verif_owner();        // the vCPU this heap is a member of
         void verif_check(uint32_t site)
         {
             auto mode = VERIF_TUNABLE(T_SLEEPQ_WALK);
@@ -525,7 +526,11 @@ namespace photon
             auto n = q.size();
             if (n > 64 && (++verif_mutations & 15)) return;
             VERIF_COV(C_SLEEPQ_WALK);
+            auto owner = verif_owner();
             for (size_t i = 0; i < n; ++i) {
+                // a thread registered here belongs to this vCPU (it must leave the heap before it may move)
+                if ((void*)q[i]->vcpu != owner)
+                    VERIF_EVENT(E_SLEEPQ_BAD, 5 | (site << 8), i);
                 if (q[i]->idx != (int)i)
                     VERIF_EVENT(E_SLEEPQ_BAD, 1 | (site << 8), i);
                 if (i && q[i]->ts_wakeup < q[(i - 1) >> 1]->ts_wakeup)
@@ -619,6 +624,11 @@ namespace photon
         // then moved to runq later by this vCPU at some proper occasion.
         thread_list standbyq;
     };
+#ifdef PHOTON_VERIF
+    inline void* SleepQueue::verif_owner() {
+        return (char*)this - offsetof(vcpu_t0, sleepq);
+    }
+#endif
     // the should locate in a same cache line, to
     // ensure consistent access from another vcpu
     static_assert(offsetof(vcpu_t0, sleepq) / 64 ==
